@@ -14,6 +14,9 @@
      (the stack discipline of compiled code), so the stack is represented by its height H = sp + 1.
      Function calls are Go-level recursion through callFunction with its deferred resumeFrame, as in the
      source; a Go panic unwinds through those deferred calls.
+     Since fb6ebf3 callFunction's error path also drops what the failed callee left above its base; that height
+     is never looked at again (nothing in a run resumes after an error, and start() empties the stack), so the
+     model keeps the older bookkeeping (base + 1) there.
    * The environment acts (cancel a context, let a watcher goroutine run) only while the VM is inside a
      host builtin [Gate] or between two iterations of [Spin] (for { }), and between invocations. *)
 From Coq Require Import List Bool Arith ZArith Lia.
@@ -25,15 +28,19 @@ Record config := mkCfg {
   clone_shares : bool;  (* Clone() copies the pointer to the run's cell (b731f6b); else the clone has its own *)
   reset_clears : bool;  (* resetForNewCode stores 0 into the VM's halt cell (before b00ed5e) *)
   push_guard   : bool;  (* push stores before it increments sp (7c03eb9) *)
-  start_drops  : bool   (* start() drops what earlier invocations left on the operand stack (c13bc4b) *)
+  start_drops  : bool;  (* start() drops what earlier invocations left on the operand stack (c13bc4b) *)
+  run_keeps_ip : bool;  (* Run() resumes the main code at a position of its own, vm.mainIP (02032cf); else at vm.ip *)
+  reset_keeps_mods : bool (* resetForNewCode re-populates vm.modules from the module globals (0029df9) *)
 }.
-(* the code with the two halt-flag repairs and the push repair; d = start() empties the stack *)
-Definition cfgd (d : bool) := mkCfg true true false true d.
+(* the code with the halt-flag, push, Run-position and module-table repairs; d = start() empties the stack *)
+Definition cfgd (d : bool) := mkCfg true true false true d true true.
 Definition cfg_current  := cfgd true.
-Definition cfg_nodrop   := cfgd false.                            (* before c13bc4b *)
-Definition cfg_pinned   := mkCfg false false true  false false.   (* the pinned tree *)
-Definition cfg_nopush   := mkCfg true  true  false false false.   (* before 7c03eb9 *)
-Definition cfg_noclone  := mkCfg true  false false true  true.    (* without b731f6b *)
+Definition cfg_nodrop   := cfgd false.                                        (* without c13bc4b *)
+Definition cfg_pinned   := mkCfg false false true  false false false false.   (* the pinned tree *)
+Definition cfg_nopush   := mkCfg true  true  false false false true  true.    (* without 7c03eb9 (and c13bc4b) *)
+Definition cfg_noclone  := mkCfg true  false false true  true  true  true.    (* without b731f6b *)
+Definition cfg_norunip  := mkCfg true  true  false true  true  false true.    (* without 02032cf *)
+Definition cfg_nomods   := mkCfg true  true  false true  true  true  false.   (* without 0029df9 *)
 
 Definition MaxStack := 1024.
 Definition MaxFrames := 1024.
@@ -90,13 +97,14 @@ Record vm := mkVm {
   startCount : nat;
   H : nat;               (* sp + 1 *)
   FP : nat;
-  ipok : bool            (* vm.ip is where Run() has to resume the main code: Run starts at vm.ip, and RunCode
-                            leaves the instruction pointer of its own, unrelated code there *)
+  ipok : bool;           (* vm.ip is where Run() has to resume the main code (matters only before 02032cf: Run
+                            started at vm.ip, and RunCode left the instruction pointer of its own code there) *)
+  mods : bool            (* vm.modules holds the modules that were given as globals (import statements find them) *)
 }.
 
 Definition new_vm (cfg : config) (e : env) : vm * env :=
-  if per_run_flag cfg then (mkVm None false 0 0 0 true, e)
-  else let (k, e') := alloc_cell e in (mkVm (Some k) false 0 0 0 true, e').
+  if per_run_flag cfg then (mkVm None false 0 0 0 true true, e)
+  else let (k, e') := alloc_cell e in (mkVm (Some k) false 0 0 0 true true, e').
 
 (* start(): refuse when running; count; empty the operand stack; give the run its flag; arm the watcher *)
 Definition start (cfg : config) (c : nat) (v : vm) (e : env) : option (vm * env) :=
@@ -108,7 +116,7 @@ Definition start (cfg : config) (c : nat) (v : vm) (e : env) : option (vm * env)
            | Some k => (k, clear_cell k e)
            | None => alloc_cell e
            end in
-    Some (mkVm (Some k) true (S (startCount v)) (if start_drops cfg then 0 else H v) (FP v) (ipok v), arm c k e1).
+    Some (mkVm (Some k) true (S (startCount v)) (if start_drops cfg then 0 else H v) (FP v) (ipok v) (mods v), arm c k e1).
 
 (* ------------------------------------------------------------------ programs *)
 Inductive expr :=
@@ -124,7 +132,7 @@ Inductive expr :=
 | Gate                           (* a host builtin during which the environment acts *)
 | Spin.                          (* for { } *)
 
-Inductive ecls := ERuntime | EHost | EStack | EFrames | ECtx.
+Inductive ecls := ERuntime | EHost | EStack | EFrames | ECtx | EImport (* "imports are disabled" *).
 Inductive res :=
 | RV (z : Z)          (* one value pushed *)
 | RE (e : ecls)       (* eval returned an error *)
@@ -271,15 +279,16 @@ Record inv := mkInv {
   iapi : api;
   ibody : expr;
   ictx : nat;
-  igates : list (list ev)
+  igates : list (list ev);
+  iimport : bool        (* the program begins with `import m`, m a module that was given as a global *)
 }.
 
 Inductive outcome :=
 | OVal (z : option Z)     (* nil error; the value handed back (TOS, or the call's result) *)
 | OErr (e : ecls)         (* an error; EHost/EStack/EFrames are "panic: ..." errors from recover() *)
 | OStale                  (* nil error although the run was cut short: eval returned ctx.Err() == nil *)
-| OWild                   (* Run() started the main code at an instruction pointer left by a RunCode: it may
-                             execute nothing and return nil, start in the middle of an instruction, or panic *)
+| OWild                   (* only before 02032cf: Run() started the main code at an instruction pointer left by a
+                             RunCode: it may execute nothing and return nil, start mid-instruction, or panic *)
 | OBusy                   (* "vm is already running" *)
 | ODiverge.               (* the call never returns *)
 
@@ -296,38 +305,41 @@ Definition is_err (o : outcome) : bool := match o with OErr _ => true | _ => fal
 
 (* resetForNewCode (the part that matters here) *)
 Definition reset_vm (cfg : config) (v : vm) (e : env) : vm * env :=
-  (mkVm (halt v) (running v) (startCount v) 0 0 (ipok v),
+  (mkVm (halt v) (running v) (startCount v) 0 0 (ipok v) (reset_keeps_mods cfg),
    if reset_clears cfg then match halt v with Some k => clear_cell k e | None => e end else e).
 
 Definition run_inv (cfg : config) (e : env) (g : Z) (v : vm) (i : inv) : outcome * env * Z * vm :=
   match start cfg (ictx i) v e with
   | None => (OBusy, e, g, v)
   | Some (v1, e1) =>
-      match iapi i, ipok v1 with
+      match iapi i, ipok v1 || run_keeps_ip cfg with
       | ARun, false =>
           (* activateCode(0, vm.ip, main) with a foreign vm.ip *)
-          (OWild, e1, g, mkVm (halt v1) false (startCount v1) 0 0 false)
+          (OWild, e1, g, mkVm (halt v1) false (startCount v1) 0 0 false (mods v1))
       | _, _ =>
       let '(v2, e2) :=
         match iapi i with
         | ARunCode => if 1 <? startCount v1 then reset_vm cfg v1 e1 else (v1, e1)
         | _ => (v1, e1)
         end in
-      let s0 := mkSt g e2 (H v2)
-                     (match iapi i with ACall => FP v2 | _ => 0 end)   (* activateCode(0, ...) *)
-                     (igates i) in
+      (* Run: the REPL's protocol (SetIP to the end of the main code after an error) keeps vm.ip usable;
+         Call: the deferred resumeFrame restores vm.ip; RunCode: vm.ip is left inside its own code *)
+      let ok := match iapi i with ARunCode => false | _ => ipok v2 end in
+      let f0 := match iapi i with ACall => FP v2 | _ => 0 end in   (* activateCode(0, ...) *)
+      if iimport i && negb (mods v2) then
+        (* op.Import: the module is not in vm.modules and there is no importer: "imports are disabled" *)
+        (OErr EImport, e2, g, mkVm (halt v2) false (startCount v2) (H v2) f0 ok (mods v2))
+      else
+      let s0 := mkSt g e2 (H v2) f0 (igates i) in
       let '(r, s1) :=
         match iapi i with
         | ACall => call_fn (halt v2) (ictx i) (eval cfg (halt v2) (ictx i) (ibody i)) s0
         | _ => eval cfg (halt v2) (ictx i) (ibody i) s0
         end in
       let o := outcome_of r in
-      (* Run: the REPL's protocol (SetIP to the end of the main code after an error) keeps vm.ip usable;
-         Call: the deferred resumeFrame restores vm.ip; RunCode: vm.ip is left inside its own code *)
-      let ok := match iapi i with ARunCode => false | _ => ipok v2 end in
       match r with
-      | RDiverge => (o, sE s1, sG s1, mkVm (halt v2) true (startCount v2) (sH s1) (sFP s1) ok)
-      | _ => (o, sE s1, sG s1, mkVm (halt v2) false (startCount v2) (sH s1) (sFP s1) ok)   (* deferred stop() *)
+      | RDiverge => (o, sE s1, sG s1, mkVm (halt v2) true (startCount v2) (sH s1) (sFP s1) ok (mods v2))
+      | _ => (o, sE s1, sG s1, mkVm (halt v2) false (startCount v2) (sH s1) (sFP s1) ok (mods v2))   (* deferred stop() *)
       end
       end
   end.
@@ -398,7 +410,7 @@ Definition differs (cfg : config) (b : obs) : bool :=
                             | None, None => true
                             | _, _ => false end)
   | OErr x, OErr y => negb (match x, y with
-                            | ERuntime, ERuntime | EHost, EHost | EStack, EStack | EFrames, EFrames | ECtx, ECtx => true
+                            | ERuntime, ERuntime | EHost, EHost | EStack, EStack | EFrames, EFrames | ECtx, ECtx | EImport, EImport => true
                             | _, _ => false end)
   | OStale, OStale | OBusy, OBusy | ODiverge, ODiverge | OWild, OWild => false
   | _, _ => true
